@@ -258,7 +258,7 @@ func TestVerifN2NHist(t *testing.T) {
 		fmt.Printf("ORACLE-FAIL %s\n", s)
 	}
 	id := 0
-	for h := 0; h < n; h++ {
+	for h := 0; h < n && oracleFail < 3; h++ { // a broken tool fails everywhere: three failing inputs are enough
 		rr := h%3 != 2
 		filter := []string{"", "", "", "require", "whitelist"}[r.Intn(5)]
 		*requireJSONField, *requireJSONValue = "", ""
@@ -356,7 +356,7 @@ func TestVerifN2NHist(t *testing.T) {
 					addr = 0
 				case held = <-gs[1].got:
 					addr = 1
-				case <-time.After(20 * time.Second):
+				case <-time.After(5 * time.Second):
 					fail(fmt.Sprintf("history %d: message %d queued but no destination received a PUB", h, id))
 					bad = true
 					continue
@@ -411,7 +411,7 @@ func TestVerifN2NHist(t *testing.T) {
 				resp := ""
 				select {
 				case resp = <-o.rec.ch:
-				case <-time.After(20 * time.Second):
+				case <-time.After(5 * time.Second):
 					fail(fmt.Sprintf("history %d: transaction of message %d answered %s by the destination but the tool never responded", h, o.id, verb))
 					bad = true
 				}
